@@ -211,6 +211,10 @@ def run(chk, prog):
     # ---- R5: every bunch is kicked and drifted (multi-bunch index maps decided under C08 R1/R2/R6; re-evaluated here) ----------
     from .common import reeval
     reeval(chk, prog, "C08", lambda i: i["rule"] in ("R1", "R2", "R6"), "R5", "R5-per-bunch-rows", 8)
+    # ---- RD: dimensional consistency of the quantities this property depends on (sa/dims.py) ----------------------------------------
+    from . import dimrules
+    nrd = dimrules.run(chk, prog, "RD")
+    chk.floor("RD-requirements", nrd or 0, 2)
     chk.notes.append("C03: linearised one-step kick-drift map read off the folded offset formulas: slopes, coupling product -a^2+O(a^4), sense, "
                      "single angle variable, equal cell sizes, centres at the zero bins. NOT decided: closure over a period, splitting-error size, "
                      "sinusoidal RF beyond the sign of its slope, DynamicRFKickMap (C19).")
